@@ -206,8 +206,12 @@ func compareSpell(run *common.Run, fam *e1.Family, v *e1.Spec, bo, vo *e1.Observ
 			continue
 		}
 		parts := strings.SplitN(k, "/", 3)
-		bi := 0
+		bi := 1
 		fmt.Sscanf(parts[0], "%d", &bi)
+		bi-- // site ids carry the 1-based block id
+		if bi < 0 || bi >= len(v.Blocks) {
+			bi = 0
+		}
 		run.Report(common.Cex{
 			Sig: fmt.Sprintf("spell|%s|spell=%s|pkg=%s|encl=%s|site=%s|direct=%s|variant=%s", fam.Name, sp, pk, v.Blocks[bi].Encl, parts[1], b, w),
 			Summary: fmt.Sprintf("statement %q in %s of package %s gets [%s] when the type is named directly but [%s] under spelling %q",
